@@ -9,7 +9,8 @@ from . import paths
 
 ALLOWED_AXIOMS = {"propext", "Classical.choice", "Quot.sound"}
 FORBIDDEN = re.compile(
-    r"\bsorry\b|\badmit\b|^\s*axiom\s|native_decide|bv_decide|implemented_by|\bunsafe\s|maxHeartbeats\s+0\b",
+    r"\bsorry\b|sorryAx|\badmit\b|^\s*(?:private\s+|protected\s+)?axiom\s|native_decide|\+native|ofReduceBool|trustCompiler|bv_decide"
+    r"|implemented_by|@\[\s*extern|@\[\s*csimp|\bunsafe\s|maxHeartbeats\s+0\b|debug\.skipKernelTC|\brun_cmd\b|\brun_elab\b|\brun_meta\b",
     re.M,
 )
 
@@ -89,39 +90,75 @@ def theorems_of(module_file: str):
     return names
 
 
-def audit(pid: str, workdir: str, required=(), extra_files=()):
-    """Print the axioms of every theorem of Props/<pid>.lean.
+AUTO_GENERATED = re.compile(r"^(eq_\d+|eq_def|congr_simp|.*match_\d+.*|.*_sunfold|.*_unsafe_rec)$")
+PINS_DIR = os.path.join(paths.LEAN, "pins")
 
-    Returns dict(obligations, discharged, theorems=[{name, axioms, ok}], missing_required)."""
+
+def env_theorems(modules):
+    """[{module, name, axioms, stmt}] for every theorem constant of the compiled modules, read from the
+    Lean environment itself (lean/AuditEnv.lean), not from the source text"""
+    p = _run(["lake", "env", "lean", "--run", "AuditEnv.lean", *modules], timeout=1800)
+    if p.returncode != 0:
+        raise BrokenCheck("environment audit failed:\n" + (p.stdout + p.stderr)[-2000:])
+    return [json.loads(l) for l in p.stdout.splitlines() if l.startswith("{")]
+
+
+def load_pins(module):
+    f = os.path.join(PINS_DIR, module + ".json")
+    return json.load(open(f)) if os.path.exists(f) else None
+
+
+def audit(pid: str, workdir: str, required=(), extra_files=()):
+    """Axioms and statement pins of every theorem of Props/<pid>.lean (+ extra Props files).
+
+    The list of theorems and their axioms come from the compiled environment; the regex scan of the source
+    is only a cross-check (a theorem the scan sees must exist in the environment).  Statement pins
+    (lean/pins/<module>.json, written by tools/pin_statements.py) fix the structural hash of every theorem's
+    statement, so a theorem cannot be weakened or dropped silently.
+    Returns dict(obligations, discharged, theorems=[{name, axioms, ok}], missing_required, pin_problems)."""
     mods = [pid] + list(extra_files)
-    names = []
-    for m in mods:
-        names += theorems_of(os.path.join(paths.LEAN, "PdeVerif", "Props", f"{m}.lean"))
-    src = [f"import PdeVerif.Props.{m}" for m in mods] + [f"#print axioms {n}" for n in names]
-    f = os.path.join(workdir, f"Audit_{pid}.lean")
-    with open(f, "w") as fh:
-        fh.write("\n".join(src) + "\n")
-    p = _run(["lake", "env", "lean", f], timeout=1800)
-    out = p.stdout + p.stderr
-    res = []
-    # answers look like:  'X' depends on axioms: [a, b]   or   'X' does not depend on any axioms
-    flat = re.sub(r"\s+", " ", out)
-    for n in names:
-        m = re.search(r"'" + re.escape(n) + r"' (does not depend on any axioms|depends on axioms: \[([^\]]*)\])", flat)
-        if not m:
-            res.append({"name": n, "axioms": None, "ok": False})
+    full = [f"PdeVerif.Props.{m}" for m in mods]
+    env = env_theorems(full)
+    res, auto_bad, pin_problems = [], [], []
+    by_mod = {}
+    for t in env:
+        last = t["name"].split(".")[-1]
+        ok = set(t["axioms"]) <= ALLOWED_AXIOMS
+        if AUTO_GENERATED.match(last):
+            if not ok:
+                auto_bad.append({"name": t["name"], "axioms": t["axioms"], "ok": False})
             continue
-        ax = [] if m.group(2) is None else [a.strip() for a in m.group(2).split(",") if a.strip()]
-        res.append({"name": n, "axioms": ax, "ok": set(ax) <= ALLOWED_AXIOMS})
-    short = {n.split(".")[-1] for n in names}
+        res.append({"name": t["name"], "axioms": t["axioms"], "ok": ok})
+        by_mod.setdefault(t["module"], {})[t["name"]] = t["stmt"]
+    names = {r["name"] for r in res}
+    for m in mods:  # cross-check with the source scan
+        for n in theorems_of(os.path.join(paths.LEAN, "PdeVerif", "Props", f"{m}.lean")):
+            if n not in names and not any(x.endswith("." + n.split(".")[-1]) for x in names):
+                res.append({"name": n, "axioms": None, "ok": False})
+    for m in full:
+        pins = load_pins(m)
+        if pins is None:
+            pin_problems.append(f"{m}: no statement pins (run tools/pin_statements.py)")
+            continue
+        cur = by_mod.get(m, {})
+        for n, h in pins.items():
+            if n not in cur:
+                pin_problems.append(f"{n}: pinned theorem no longer exists")
+            elif cur[n] != h:
+                pin_problems.append(f"{n}: statement differs from the pinned one")
+        for n in cur:
+            if n not in pins:
+                pin_problems.append(f"{n}: theorem without a statement pin")
+    short = {r["name"].split(".")[-1] for r in res}
     missing = [r for r in required if r not in short]
     return {
-        "obligations": len(names) + len(missing),
+        "obligations": len(res) + len(missing),
         "discharged": sum(1 for r in res if r["ok"]),
-        "theorems": res,
+        "theorems": res + auto_bad,
         "missing_required": missing,
-        "raw_ok": p.returncode == 0,
-        "raw": out if p.returncode != 0 else "",
+        "pin_problems": pin_problems,
+        "raw_ok": True,
+        "raw": "",
     }
 
 
